@@ -114,8 +114,10 @@ WellFormed(toks) == Len(toks) > 0 /\ Open(toks, 1, 1) = 0
 (*         that do not lexically enclose the command                       *)
 (*   infn  a function is being executed in this execution environment      *)
 (***************************************************************************)
-FNames == {"f", "g", "true", "false"}
-BuiltinStatus(name) == CASE name = "true" -> 0 [] name = "false" -> 1 [] OTHER -> -1
+FNames == {"f", "g", "true", "false", "status"}
+\* `true`/`false`: substitutive built-ins (found through PATH); `status`: a
+\* regular built-in of the test bed that returns its operand, 0 without one.
+BuiltinStatus(name) == CASE name \in {"true", "status"} -> 0 [] name = "false" -> 1 [] OTHER -> -1
 
 Undef == [k |-> "undef", n |-> 0, s |-> "", w |-> 0, r |-> 0, m |-> 0, c |-> <<>>]
 
